@@ -55,7 +55,7 @@ fn random_line(rng: &mut Rng, tier: Tier) -> J {
         3 => json!(" leading and trailing blanks  "),
         4 => json!("tab\tseparated\tfields"),
         5 => json!("carriage\rinside"),
-        6 => json!(*rng.pick(&["\u{feff}byte-order mark first", "\u{feff}", "#comment-like", ";", "\u{0}nul first", "trailing blank ", "trailing tab\t", "\\", "ends with backslash\\"])),
+        6 => json!(*rng.pick(&["\u{feff}byte-order mark first", "\u{feff}", "#comment-like", ";", "\u{0}nul first", "trailing blank ", "trailing tab\t", "\\", "ends with backslash\\", "content ends with cr\r", "\r", "\r\r", "cr cr\r\r"])),
         _ => { let n = rng.below(30); json!((0..n).map(|_| *rng.pick(&['a', 'b', ' ', '1', '=', '{', '"'])).collect::<String>()) }
     }
 }
